@@ -732,7 +732,9 @@ LEVEL_TEXT = ("Machine-checked Coq theorems about an executable model of Date/Da
               "to /repo by a boundary-heavy correspondence run in both backends; an independent datetime.date oracle incl. tz-database zones "
               "with skipped midnights.")
 DESIGN_REF = "DESIGN.md section 4 C16"
-LEVEL_NOTE = ("Trusted: Coq kernel+VM, the hand model Model/Weekday.v (tied by correspondence every run, both backends), Spec/Cal.v as a model of "
+LEVEL_NOTE = ("Trusted: Coq kernel+VM, the hand model Model/Weekday.v (tied by correspondence every run, both backends; next/previous also by the translation "
+              "Gen/WeekdayNav.v = model, Proofs/C16Gen.v), Spec/Cal.v as a model of "
               "CPython's datetime/calendar (validated every run), extraction+driver (cross-checked with vm_compute). DateTime in tz-database zones "
               "with transitions is covered by the oracle only (no model).")
-TECHNIQUE = "Coq proof (lia with mod 7, induction on loop fuel / n, calendar bijection lemmas) over a hand model + differential correspondence + stdlib oracle"
+TECHNIQUE = ("Coq proof (lia with mod 7, induction on loop fuel / n, calendar bijection lemmas) over a hand model whose next/previous bodies are "
+             "proved equal to the translation regenerated from /repo each run + differential correspondence + stdlib oracle")
